@@ -53,12 +53,20 @@ FAULTS = {
     "branch-to-ram": ["bra 0x7e0000"],
     "ips-without-header": [".include_ips 'bad_header.ips', 0"],
     "ips-truncated": [".include_ips 'truncated.ips', 0"],
+    "undefined-macro-defined-by-other-programs": None,  # host dependent
 }
 FAULT_FILES = {"bad_header.ips": {"hex": (b"PATCX" + b"\x02\x00\x00\x00\x01a" + b"EOF").hex()},
                "truncated.ips": {"hex": (b"PATCH" + b"\x02\x00\x00\x00\x05ab").hex()}}
 
 
-def fault_lines(cls, rom):
+def fault_lines(cls, rom, ir=None):
+    if cls == "undefined-macro-defined-by-other-programs":
+        # hosts define m_a, m_b, m_c in that order: a name this host does not define (but earlier assemblies of the same
+        # process did) is still an undefined macro
+        defined = set()
+        twins.walk(ir or [], lambda st, im: defined.add(st["n"]) if st["k"] == "macro" else None)
+        free = [n for n in ("m_a", "m_b", "m_c") if n not in defined]
+        return [f"{free[0]}(1, 2, 3)"] if free else None
     if cls == "unmapped-position":
         return ["*=0x700000" if rom == "low" else "*=0x001234"]
     return FAULTS[cls]
@@ -94,7 +102,7 @@ def strategy(tier):
 
 
 def hyp_examples(tier):
-    return 48 if tier == "quick" else 1500
+    return 36 if tier == "quick" else 1500
 
 
 def insertion_points(ir):
@@ -194,7 +202,10 @@ def run_case(case) -> Outcome:
             src, inc, _ = render.render(ir)
             check_positive(out, case, src, {**files, **inc}, rom, [case["entry"]])
             return out
-        fir = inject(ir, tuple(tuple(s) for s in case["steps"]), case["index"], fault_lines(case["fault"], rom))
+        fl = fault_lines(case["fault"], rom, ir)
+        if fl is None:
+            return Outcome(skip="fault not applicable to this host")
+        fir = inject(ir, tuple(tuple(s) for s in case["steps"]), case["index"], fl)
         src, inc, _ = render.render(fir)
         failed, detail, _ = run_entry(case["entry"], src, rom, {**files, **inc, **FAULT_FILES})
         out.evals = 1
@@ -218,7 +229,9 @@ def run_case(case) -> Outcome:
     classes = list(FAULTS)  # every listed class is a definite error by the property's own list
     nt = 0
     for cls in classes:
-        lines = fault_lines(cls, rom)
+        lines = fault_lines(cls, rom, ir)
+        if lines is None:
+            continue
         for steps, index in pts:
             fir = inject(ir, steps, index, lines)
             fsrc, finc, _ = render.render(fir)
